@@ -71,6 +71,10 @@ pub fn accepted_at_invocation(h: &History, o: &OpRec) -> bool {
         None => return false,
     };
     let ar = &h.actors[a as usize];
+    if h.split && o.us.is_none() {
+        // slot reserved at the invocation, but the push may have come later (after a stop marker, say)
+        return false;
+    }
     if !o.budget || !ar.spawned || o.inv_seq >= ar.closing_seq() || matches!(o.res(), Some(Res::NoHandle) | Some(Res::Unsupported) | Some(Res::ErrSend)) {
         return false;
     }
@@ -784,6 +788,10 @@ pub fn c09(c: &mut Ctx) {
             } else if o.tag.is_ask() && !matches!(o.res(), Some(Res::ErrSend) | Some(Res::NoHandle) | Some(Res::Unsupported)) {
                 let taken = h.msgs.get(&o.mid.unwrap()).and_then(|m| m.henter.first()).map(|x| x.0).unwrap_or(u64::MAX);
                 asks.push((o.inv_seq, taken));
+            } else if h.split && o.us.is_none() && o.cancelled.is_some() && (o.tag.is_tell() || o.tag == OpTag::Stop) {
+                // cancelled inside the reserve | push window: the message was pushed all the same
+                let taken = o.mid.and_then(|m| h.msgs.get(&m)).and_then(|m| m.henter.first()).map(|x| x.0).unwrap_or(u64::MAX);
+                asks.push((o.inv_seq, taken));
             }
         }
         deltas.sort();
@@ -818,7 +826,9 @@ pub fn c09(c: &mut Ctx) {
             if occ_hi_at(o.inv_seq) < cap {
                 c.chk.hit("C09");
                 let polls = o.ret.as_ref().map(|r| r.4);
-                if polls != Some(1) && !(o.cancelled.is_some() && polls.is_none() && false) {
+                // with the reserve | push window open an un-timed send needs one poll more (or is cancelled inside the window)
+                let split_ok = h.split && o.us.is_none() && (polls == Some(2) || (polls.is_none() && o.cancelled.is_some()));
+                if polls != Some(1) && !split_ok {
                     // still pending/cancelled after the first poll, or needed several polls
                     c.v("C09", "send-waited-with-free-slot", o.inv_seq, format!("actor {a}: {:?} of message {:?} did not complete in its first poll (polls {polls:?}) although at most {} of {cap} slots could be occupied and no other sender was waiting", o.tag, o.mid, occ_hi_at(o.inv_seq)));
                 }
@@ -1041,6 +1051,13 @@ pub fn c11(c: &mut Ctx) {
                     c.v("C11", "upgrade-none-while-referenced", e.seq, format!("upgrade() of a weak handle to actor {a} returned None although a strong reference exists"));
                 }
             } else if !op_in_flight && ar.joined.as_ref().map(|j| j.0 < e.seq).unwrap_or(false) {
+                // a send whose push came after the actor had ended leaves its envelope - which holds a strong
+                // reference - in the dead mailbox for ever: by the letter of the property a strong reference
+                // still exists, so upgrade may return Some (the leak itself is noted in DESIGN.md 11.4c)
+                let zombie = h.split && h.ops.iter().any(|o| o.a == Some(*a) && o.us.is_none() && (o.tag.is_send() || o.tag == OpTag::Stop) && o.inv_seq < e.seq && o.end_seq().map(|x| x > ar.closing_seq()).unwrap_or(true));
+                if zombie {
+                    continue;
+                }
                 c.chk.hit("C11");
                 if *ok {
                     c.v("C11", "upgrade-some-after-death", e.seq, format!("upgrade() of a weak handle to actor {a} returned Some although the actor has ended and no strong reference exists"));
